@@ -88,6 +88,22 @@ def run(tier, replay_path=None):
             else:
                 ck.violation("memory history (%s): step %d (%s): %s: %s" % (fam, m["step"], m["mismatch"]["h"][m["step"]]["op"], m["why"],
                                                                              " ".join("%s:%s:%s" % (o["op"], o["a"], o["b"]) for o in m["mismatch"]["h"])[:400]), m)
+    # binding self-test: one changed returned value in a history must be reported
+    import copy
+    bad = []
+    for h in hists:
+        idx = [i for i, o in enumerate(h["h"]) if o["op"] in ("get", "getg", "pop") and o["r"] > 0]
+        if idx:
+            h2 = copy.deepcopy(h)
+            h2["h"][idx[0]]["r"] += 1
+            bad.append(h2)
+        if len(bad) >= 10:
+            break
+    if bad:
+        bm, _ = replay(bad)
+        if len(bm) != len(bad):
+            raise vlib.Infra("binding self-test: %d corrupted histories, %d reported" % (len(bad), len(bm)))
+        ck.part("binding self-test", corrupted=len(bad), rejected=len(bm))
     # seeded simulation of long histories over the full alphabet and more widths
     num = 300 if tier == "quick" else 4000
     r = vlib.run_tlc("Memory", "Memory_sim.cfg", simulate="num=%d" % num, depth=26, extra=["-seed", str(seed)], timeout=3000)
